@@ -52,7 +52,7 @@ def cmd_check(args, vx):
         return 2
     pc = cfg["properties"][prop]
     units = pc["units"]
-    ev_path = os.path.join(vx.VERIF, "evidence", f"{prop}.json")
+    ev_path = os.path.join(os.environ.get("VX_EVIDENCE_DIR", os.path.join(vx.VERIF, "evidence")), f"{prop}.json")
     try:
         os.remove(ev_path)
     except FileNotFoundError:
@@ -153,6 +153,19 @@ def cmd_check(args, vx):
     if obligations == 0:
         tool_problems.append("vacuity: zero obligations")
 
+    # macro output validation on sampled interfaces (C01 macro half; see vxlib/trie.py)
+    trie_summaries = []
+    for sample in pc.get("trie_samples", []):
+        try:
+            from . import trie
+            summ, tv = trie.validate(sample, vx.REPO, vx.VERIF)
+            trie_summaries.append(summ)
+            for v in tv:
+                violations.append({"obligation": f"trie:{sample}:{v['what']}", "item": f"macro output for samples/{sample}", "message": v["what"],
+                                   "spans": [], "rendered": v["what"], "tags": [prop], "site": "", "trie_input": v["input"], "sample": sample})
+        except ToolError as e:
+            tool_problems.append(str(e))
+
     rc = 0
     os.makedirs(os.path.join(vx.BUILD, "replay"), exist_ok=True)
     out_lines = []
@@ -165,9 +178,12 @@ def cmd_check(args, vx):
                   "spans": info["spans"], "verifier_output": info["rendered"], "failing_input": None,
                   "note": "obligation discharged on the pinned tree; now reported unproved by Verus"}
         tail = " no-failing-input-found"
+        if info.get("trie_input"):
+            replay["failing_input"] = {"kind": "header", "sample": info["sample"], "run_input": info["trie_input"], "expected": info["message"]}
+            tail = ""
         try:
             from . import replay as rpl
-            found = rpl.search(vx, prop, info, seed)
+            found = None if info.get("trie_input") else rpl.search(vx, prop, info, seed)
             if found:
                 replay["failing_input"] = found
                 tail = ""
@@ -194,6 +210,7 @@ def cmd_check(args, vx):
             "verification_items": fn_records,
             "woven_clauses": sum(results[(u, False)].gen.clauses for u in units),
             "canaries": {"woven": canaries_total, "failed_as_required": canaries_failed},
+            "macro_output_validation": trie_summaries,
             "rewrite_log": rewrites,
             "assumption_scan": {k: v for k, v in assumptions_scan.items() if v},
             "not_covered": pc.get("not_covered", []),
